@@ -44,7 +44,8 @@ CurrTree = Deque[Union[MacroCall, RepCall]]
 OpsQueue = Deque[LastPhaseOp]
 LabelsDict = Dict[str, int]
 
-wflip_start_label = '_.wflip_area_start_'
+# '#' cannot appear in a source identifier, so no source label can collide with this internal label
+wflip_start_label = '_.wflip_area_start#'
 
 
 def macro_resolve_error(
